@@ -10,6 +10,9 @@
 // ReadPosMapFrom and internal.ReadFullAt.  The monitors are the clauses of the property, evaluated
 // on what the real code returned; the model's prediction is only used for conformance (R3).
 //
+// streams.go: CodecStreams.tla - frames written to several streams through transports that fail after
+// k bytes; a failed write must not show on any other stream.
+//
 // A seeded randomized part (random.go) adds sizes around 65534/65535/65536/131070, random
 // chunkings / splits / contents and structured garbage.  probe.go keeps one smoke probe of hostile
 // length prefixes in a memory-limited child process.
@@ -221,7 +224,11 @@ type edge struct {
 	Len     int64           `json:"len"`
 	Cut     int64           `json:"cut"`
 	Hostile bool            `json:"hostile"`
-	Res     struct {
+	// stream (CodecStreams.tla): the writes, and the model's bytes / acknowledged frames per stream
+	Ops  []sop `json:"ops,omitempty"`
+	Wlen []int `json:"wlen,omitempty"`
+	Nack []int `json:"nack,omitempty"`
+	Res  struct {
 		Ok   bool   `json:"ok"`
 		Vals []tok  `json:"vals"`
 		Err  string `json:"err"`
@@ -299,6 +306,10 @@ func main() {
 
 	// ---- 3. seeded random part ----
 	randomPart(rep, args)
+
+	// ---- 3b. several streams, writes that fail after k bytes (CodecStreams.tla, streams.go) ----
+	streamsRelevance(rep)
+	streamsStage(rep, args, edges)
 
 	// ---- 4. relevance: the reader modelled exactly as coded must violate ChunkPrefixRejected ----
 	if !args.Quick() {
@@ -431,6 +442,8 @@ func (e *env) replayEdge(ed *edge) {
 		e.posEdge(ed)
 	case "rfa":
 		e.rfaEdge(ed)
+	case "stream":
+		e.streamEdge(ed, nil)
 	default:
 		core.Infra("unknown edge kind %q", ed.P)
 	}
@@ -444,9 +457,10 @@ func replayFile(rep *core.Report, args *core.Args, path string) {
 	var f struct {
 		Seed   *int64 `json:"seed"`
 		Replay struct {
-			Kind string          `json:"kind"`
-			Edge *edge           `json:"edge"`
-			Rand json.RawMessage `json:"rand"`
+			Kind   string          `json:"kind"`
+			Edge   *edge           `json:"edge"`
+			Rand   json.RawMessage `json:"rand"`
+			Before [][]sop         `json:"before"`
 		} `json:"replay"`
 	}
 	if err := json.Unmarshal(b, &f); err != nil {
@@ -464,7 +478,11 @@ func replayFile(rep *core.Report, args *core.Args, path string) {
 		}
 		replayOf.Store(e.s, map[string]any{"kind": "edge", "edge": f.Replay.Edge})
 		verbose = true
-		e.replayEdge(f.Replay.Edge)
+		if f.Replay.Edge.P == "stream" {
+			e.streamEdge(f.Replay.Edge, f.Replay.Before)
+		} else {
+			e.replayEdge(f.Replay.Edge)
+		}
 	case "rand":
 		verbose = true
 		e.replayRand(f.Replay.Rand)
